@@ -888,7 +888,14 @@ func (p *RPCCompiler) resolveUnderlyingList(msg protoref.Message, fieldName stri
 		nestingLevel++
 	}
 
-	listFieldValue := msg.Get(msg.Descriptor().Fields().ByName(protoref.Name(fieldName[nestingLevel:])))
+	fd := msg.Descriptor().Fields().ByName(protoref.Name(fieldName[nestingLevel:]))
+	if fd == nil {
+		// The message has no such field (e.g. the oneof wrapper of a union or interface value):
+		// there is no context to resolve, like for any other field that is not found on the path.
+		return nil
+	}
+
+	listFieldValue := msg.Get(fd)
 	if !listFieldValue.IsValid() {
 		return nil
 	}
